@@ -62,6 +62,30 @@ def imageMultiplyW [Zero K] [Mul K] [FocalLike M] (phOf : M → R → K) (p : Pl
     Except String (Wf K M) :=
   (planeMultiplyW phOf p ppx w).map fun w' => Wf.ofHandover (Gen.imageMultiplyHandover w'.handover ()) w'.data
 
+/-- one step of a chain at wavefront level: a `Plane`, a `Pupil` (with its focal length) or an `Image`, each with its pixel scale -/
+inductive WStep (K R M : Type) where
+  | plane (p : PlaneM K R) (px : Option (Int × Int))
+  | pupil (p : PlaneM K R) (px : Option (Int × Int)) (fl : M)
+  | image (p : PlaneM K R) (px : Option (Int × Int))
+
+def WStep.planeM : WStep K R M → PlaneM K R
+  | .plane p _ => p
+  | .pupil p _ _ => p
+  | .image p _ => p
+
+def WStep.apply [Zero K] [Mul K] [FocalLike M] (phOf : M → R → K) (s : WStep K R M) (w : Wf K M) : Except String (Wf K M) :=
+  match s with
+  | .plane p px => planeMultiplyW phOf p px w
+  | .pupil p px fl => pupilMultiplyW phOf p px fl w
+  | .image p px => imageMultiplyW phOf p px w
+
+/-- `w * s1 * s2 * …`: the chain stops at the first refusal -/
+def runW [Zero K] [Mul K] [FocalLike M] (phOf : M → R → K) : List (WStep K R M) → Wf K M → Except String (Wf K M)
+  | [], w => .ok w
+  | s :: r, w => match s.apply phOf w with
+    | .ok w' => runW phOf r w'
+    | .error e => .error e
+
 /-- `Wavefront(wavelength, ...)`: one one-element field of value 1 at offset (0, 0), shape `()` -/
 def Wf.init [Zero K] (one : K) (wavelength focal : M) (px : Option (Int × Int)) : Wf K M :=
   { wavelength := wavelength, focal := focal, pixelscale := px, shape := none,
